@@ -269,6 +269,14 @@ def shape_problems(d):
         for k, v in (d.atcharges or {}).items():
             if isinstance(v, np.ndarray) and v.shape != (natom,):
                 out.append(("cross", "atcharges=natom", f"atcharges[{k}] shape {v.shape} vs natom {natom}"))
+        # arrays that the loaders document as per-atom, stored in the free-form dictionaries
+        for dname, keys in (("atffparams", ("attypes", "restypes", "resnums", "resnames")),
+                            ("extra", ("occupancies", "bfactors", "chainids", "velocities"))):
+            dd = getattr(d, dname) or {}
+            for key in keys:
+                v = dd.get(key)
+                if isinstance(v, (np.ndarray, tuple, list)) and len(v) != natom:
+                    out.append(("cross", f"{dname}.{key}=natom", f"{dname}[{key}] has length {len(v)} vs natom {natom}"))
         if d.athessian is not None and d.athessian.shape != (3 * natom, 3 * natom):
             out.append(("cross", "athessian=3Nx3N", f"athessian shape {d.athessian.shape} vs natom {natom}"))
     return out
